@@ -80,6 +80,7 @@ class M:
         self.done = done              # translated methods -> returns a value?
         self.locals: set[str] = set(PARAMS[fn.name])
         self.bools: set[str] = set()
+        self.lists: set[str] = set()
         self.loop_pack: str | None = None      # inside a loop body: the packed loop state
         self.is_loop_method = fn.name in LOOP_RESULT
         if fn.name == "cread":
@@ -166,8 +167,16 @@ class M:
         src = ast.unparse(st)
         if isinstance(st, ast.Expr) and isinstance(st.value, ast.Constant):
             return self.block(rest, ind, tail)
-        GLUE = ("data = []", "read_buffer_view = memoryview(read_buffer)")
-        if src in GLUE or (isinstance(st, ast.Expr) and src.startswith("data.append(")):
+        # glue of the read loops: the list collecting what was read, the memoryview of the caller's buffer
+        if isinstance(st, (ast.Assign, ast.AnnAssign)) and isinstance(st.value, ast.List) and not st.value.elts:
+            tgt = st.targets[0] if isinstance(st, ast.Assign) else st.target
+            if isinstance(tgt, ast.Name):
+                self.lists.add(tgt.id)
+                return self.block(rest, ind, tail)
+        if src == "read_buffer_view = memoryview(read_buffer)" or (
+                isinstance(st, ast.Expr) and isinstance(st.value, ast.Call) and isinstance(st.value.func, ast.Attribute)
+                and st.value.func.attr == "append" and isinstance(st.value.func.value, ast.Name)
+                and st.value.func.value.id in self.lists):
             return self.block(rest, ind, tail)
         if isinstance(st, ast.Break):
             if self.loop_pack is None:
@@ -326,8 +335,11 @@ class M:
         # what follows the loop must be glue (concatenation / unpacking of what was read) and the final return
         for s2 in rest:
             txt = ast.unparse(s2)
-            if not (txt.startswith("data_ar = np.concatenate(data)") or "bitsinfo.unpack" in txt
-                    or txt in ("return data_ar", "return nbytes")):
+            concat = (isinstance(s2, ast.Assign) and isinstance(s2.value, ast.Call)
+                      and ast.unparse(s2.value.func) == "np.concatenate" and len(s2.value.args) == 1
+                      and isinstance(s2.value.args[0], ast.Name) and s2.value.args[0].id in self.lists)
+            plain_return = isinstance(s2, ast.Return) and isinstance(s2.value, ast.Name)
+            if not (concat or "bitsinfo.unpack" in txt or plain_return):
                 raise Untranslatable(f"after the read loop: `{txt[:60]}`")
         res = LOOP_RESULT[self.fn.name]
         if res not in carried:
@@ -437,7 +449,10 @@ def translate(tree: ast.Module):
     done: dict[str, str] = {}
     for name in METHODS:
         try:
-            m = M(_bind_props(fns[name], props), props, done)
+            import normalize
+            src_fn = normalize.inline_aliases(fns[name], ("self.bitsinfo", "self.sinfo", "self.file_obj", "self.sinfo.entries"))
+            src_fn = normalize.inline_temps(src_fn, keep={"count", "nbytes", "eof", "eol", "fileid"})
+            m = M(_bind_props(src_fn, props), props, done)
             # a property returning `None` when no file is open: the `is None` guard is skipped, as for methods
             m.fn.body = [s for s in m.fn.body if not (isinstance(s, ast.If) and ast.unparse(s.test) == "self.ifile_cur is None")]
             text = m.translate()
